@@ -500,6 +500,11 @@ def _decompose_sum_result(v: Term, X: Term, sa: SetAlg, k: Term):
 
 # ------------------------------------------------------------------------------------------- R13.4
 def r13_4(model: Model, rep: Report, classes) -> None:
+    r13_4_marginalize(model, rep, classes)
+    r13_4_conditional(model, rep, classes)
+
+
+def r13_4_marginalize(model: Model, rep: Report, classes) -> None:
     ex = model.cls(EXPR)
     # marginalize
     f = ex.find_method("marginalize")
@@ -523,7 +528,11 @@ def r13_4(model: Model, rep: Report, classes) -> None:
     ok = len(paths) == 1 and paths[0].value == ("op", "/", slf, ("meth", slf, "marginalize", (), (("ranges", R),)))
     (rep.proven if ok else rep.refuted)("R13.4", construct(f, "self-over-marginal"), "" if ok else
                                         "normalize_marginalize(r) must be self / self.marginalize(r): " + (short(show(paths[0].value)) if paths else "no path"), loc(f))
+
+
+def r13_4_conditional(model: Model, rep: Report, classes) -> None:
     # conditional: the denominator sums the free variables of self that are not kept
+    R = var("ranges")
     seen = set()
     for K in classes:
         f = K.find_method("conditional")
